@@ -109,7 +109,7 @@ Refused(addr) == BanOf(addr) \in {"perm", "future", "soon"}
    the connection is closed; nothing else happens (C17 BanAtDoor). *)
 Connect(s) ==
   LET c == s.c IN
-  /\ conn[c].ph = "free"
+  /\ conn[c].ph \in {"free", "dialed"}
   /\ IF Refused(s.addr)
        THEN /\ conn' = [conn EXCEPT ![c] = [FreeConn EXCEPT !.ph = "closed", !.addr = s.addr]]
             /\ out' = << [Msg(c, 104) EXCEPT !.data = IF BanOf(s.addr) = "perm" THEN PermText ELSE TempText,
@@ -117,6 +117,16 @@ Connect(s) ==
        ELSE /\ conn' = [conn EXCEPT ![c] = [FreeConn EXCEPT !.ph = "open", !.addr = s.addr]]
             /\ out' = <<>>
   /\ UNCHANGED <<agreement, accts, chats, bans>>
+
+(* Dial / Handshake: the same in two steps - the TCP connection is accepted first and the peer sends its handshake
+   later.  The ban list is consulted when the handshake has been read (C17: "refused right after the handshake"),
+   so a ban added between the two steps applies. *)
+Dial(s) ==
+  /\ conn' = [conn EXCEPT ![s.c] = [FreeConn EXCEPT !.ph = "dialed", !.addr = s.addr]]
+  /\ out' = <<>>
+  /\ UNCHANGED <<agreement, accts, chats, bans>>
+
+Handshake(s) == Connect([s EXCEPT !.op = "connect"] @@ [addr |-> conn[s.c].addr])
 
 LoginName(s) == IF s.login = "" THEN "guest" ELSE s.login
 PwMatches(s) == IF "matches" \in DOMAIN s THEN s.matches   \* computed by the harness with bcrypt from the account file
@@ -452,6 +462,8 @@ InP(c) == c \in Conns /\ conn[c].ph = "in"
 Awake(c) == InP(c) /\ ~conn[c].away   \* an away user's next request is modelled by Wake only
 Guard(s) ==
   CASE s.op = "connect"   -> s.c \in Conns /\ conn[s.c].ph = "free"
+    [] s.op = "dial"      -> s.c \in Conns /\ conn[s.c].ph = "free"
+    [] s.op = "handshake" -> s.c \in Conns /\ conn[s.c].ph = "dialed"
     [] s.op = "login"     -> s.c \in Conns /\ conn[s.c].ph = "open"
     [] s.op = "loginbegin" -> s.c \in Conns /\ conn[s.c].ph = "open"
     [] s.op = "loginend"  -> s.c \in Conns /\ conn[s.c].ph = "auth"
@@ -474,6 +486,8 @@ Guard(s) ==
 
 Apply(s) ==
   CASE s.op = "connect"   -> Connect(s)
+    [] s.op = "dial"      -> Dial(s)
+    [] s.op = "handshake" -> Handshake(s)
     [] s.op = "login"     -> Login(s)
     [] s.op = "loginbegin" -> LoginBegin(s)
     [] s.op = "loginend"  -> LoginEnd(s)
